@@ -59,6 +59,8 @@ pub enum Dyn {
     NewtypeStruct(Box<Dyn>), NewtypeVariant(&'static str, Box<Dyn>),
     Seq(Vec<Dyn>), Tuple(Vec<Dyn>), TupleStruct(Vec<Dyn>), TupleVariant(&'static str, Vec<Dyn>),
     Map(Vec<(Dyn, Dyn)>), Struct(Vec<(&'static str, Dyn)>), StructVariant(&'static str, Vec<(&'static str, Dyn)>),
+    // values whose Serialize impl asks the serializer whether the format is human readable (only through `serx` lines)
+    Ip(std::net::IpAddr), Sock(std::net::SocketAddr), Hr,
 }
 
 fn leak(s: String) -> &'static str {
@@ -68,6 +70,9 @@ fn leak(s: String) -> &'static str {
 impl Serialize for Dyn {
     fn serialize<S: Serializer>(&self, s: S) -> Result<S::Ok, S::Error> {
         match self {
+            Dyn::Ip(ip) => ip.serialize(s),
+            Dyn::Sock(a) => a.serialize(s),
+            Dyn::Hr => if s.is_human_readable() { s.serialize_str("human") } else { s.serialize_u8(0) },
             Dyn::Bool(b) => s.serialize_bool(*b),
             Dyn::I8(n) => s.serialize_i8(*n),
             Dyn::I16(n) => s.serialize_i16(*n),
@@ -177,6 +182,10 @@ fn rd_dyn_fields(ts: &mut Toks) -> Option<Vec<(&'static str, Dyn)>> {
 pub fn rd_dyn(ts: &mut Toks) -> Option<Dyn> {
     let t = ts.next()?;
     Some(match t {
+        "IP4" => { let v: Vec<u8> = (0..4).map(|_| ts.next().and_then(|x| x.parse().ok())).collect::<Option<Vec<u8>>>()?; Dyn::Ip(std::net::IpAddr::V4(std::net::Ipv4Addr::new(v[0], v[1], v[2], v[3]))) }
+        "IP6" => { let v: Vec<u16> = (0..8).map(|_| ts.next().and_then(|x| x.parse().ok())).collect::<Option<Vec<u16>>>()?; Dyn::Ip(std::net::IpAddr::V6(std::net::Ipv6Addr::new(v[0], v[1], v[2], v[3], v[4], v[5], v[6], v[7]))) }
+        "SOCK" => { let v: Vec<u16> = (0..5).map(|_| ts.next().and_then(|x| x.parse().ok())).collect::<Option<Vec<u16>>>()?; Dyn::Sock(std::net::SocketAddr::new(std::net::IpAddr::V4(std::net::Ipv4Addr::new(v[0] as u8, v[1] as u8, v[2] as u8, v[3] as u8)), v[4])) }
+        "HR" => Dyn::Hr,
         "B" => Dyn::Bool(ts.next()? == "t"),
         "I8" => Dyn::I8(ts.next()?.parse().ok()?),
         "I16" => Dyn::I16(ts.next()?.parse().ok()?),
@@ -290,6 +299,10 @@ struct Pair(i16, String);
 struct Marker;
 #[derive(serde::Deserialize, Debug, PartialEq)]
 enum En { A, B(u32), C(i8, bool), D { p: f64, q: Vec<u8> } }
+#[derive(serde::Deserialize, Debug, PartialEq, Eq, PartialOrd, Ord, Hash)]
+struct UserId(String);
+#[derive(serde::Deserialize, Debug, PartialEq, Eq, PartialOrd, Ord)]
+enum Color { Red, Green }
 #[derive(serde::Deserialize, Debug, PartialEq)]
 enum En2 { At(Option<i32>), Mark(()), U(Marker), W(Wrap), V(Vec<u8>), N(Option<Option<bool>>), E(En), S {}, T() }
 #[derive(serde::Deserialize, Debug, PartialEq)]
@@ -340,6 +353,14 @@ pub fn run_de(ts: &mut Toks) -> Option<String> {
         "marker" => de_both::<Marker>(&v),
         "en" => de_both::<En>(&v),
         "nest" => de_both::<Nest>(&v),
+        "map_nt" => de_both::<BTreeMap<UserId, u32>>(&v),
+        "map_nt_nest" => de_both::<BTreeMap<String, BTreeMap<UserId, Vec<String>>>>(&v),
+        "map_enumkey" => de_both::<BTreeMap<Color, i8>>(&v),
+        "map_i32key" => de_both::<BTreeMap<i32, bool>>(&v),
+        "map_u64key" => de_both::<BTreeMap<u64, Option<u8>>>(&v),
+        "map_boolkey" => de_both::<BTreeMap<bool, u8>>(&v),
+        "hmap_nt" => de_both::<std::collections::HashMap<UserId, i64>>(&v).replace("\n", " "),
+        "ip" => de_both::<std::net::IpAddr>(&v),
         "en2" => de_both::<En2>(&v),
         "opt_en" => de_both::<Option<En>>(&v),
         "vec_en2" => de_both::<Vec<En2>>(&v),
